@@ -34,6 +34,7 @@ type Program struct {
 	Tape      []byte   `json:"tape"`
 	Lossy     bool     `json:"lossy"` // tape governs message fates from the start
 	QuietMs   int      `json:"quiet_ms"`
+	LatencyMs int      `json:"latency_ms,omitempty"` // every message takes 1..LatencyMs ms (0: instantaneous)
 	Profile   string   `json:"profile"`
 }
 
@@ -67,7 +68,7 @@ func (a Action) String() string {
 
 func (p *Program) String() string {
 	var b strings.Builder
-	fmt.Fprintf(&b, "n=%d suffrage=%v flavour=%v hb=%v maxappend=%d trailing=%d snapthr=%d pipeline=%v lossy=%v profile=%s\n", p.N, p.Suffrage, p.Flavour, p.HBms, p.MaxAppend, p.Trailing, p.SnapThr, p.Pipeline, p.Lossy, p.Profile)
+	fmt.Fprintf(&b, "n=%d suffrage=%v flavour=%v hb=%v maxappend=%d trailing=%d snapthr=%d pipeline=%v lossy=%v latency=%d profile=%s\n", p.N, p.Suffrage, p.Flavour, p.HBms, p.MaxAppend, p.Trailing, p.SnapThr, p.Pipeline, p.Lossy, p.LatencyMs, p.Profile)
 	for _, a := range p.Actions {
 		b.WriteString("  " + a.String() + "\n")
 	}
